@@ -1,56 +1,103 @@
-(* Spec: applying text edits to a document in the LSP manner.  Positions are (line, UTF-16 code unit);
-   lines are separated by LF (a CR before it is an ordinary character of the line, as in
-   vscode-languageserver-textdocument).  Edits refer to the OLD document, are ordered and do not overlap. *)
+(* Spec: what it means to apply a list of LSP TextEdits to a document (LSP 3.17, "Text Documents", "Position",
+   "TextEdit[]").  Written from the protocol text, independently of how mos computes edits:
+
+   * a document is a sequence of Unicode scalar values; its lines are separated by LF, CR LF or a lone CR;
+   * a position is (line, character), both zero-based, character counted in UTF-16 code units within the line
+     (a scalar above U+FFFF is two units), the line terminator not being part of the line: a position can neither
+     denote the middle of a CR LF pair nor the middle of a surrogate pair;
+   * all ranges of a TextEdit[] refer to the ORIGINAL document, they never overlap (touching is allowed; inserts at
+     the same position appear in array order).
+
+   This development is strict: a position whose line does not exist, whose character lies beyond the end of the line
+   or inside a scalar is "not in range" (the protocol would let a client clamp it; an answer that relies on clamping
+   does not denote the text the server meant). *)
 From Coq Require Import List NArith Bool Arith.
 Import ListNotations.
-From Mos Require Import model.Utf model.Edits.
 
-Definition adv16 := adv1 width_utf16.
+Definition text := list N.
+Definition pos := (nat * nat)%type.                      (* line, character (UTF-16 code units) *)
+Record edit := mkEdit { e_start : pos; e_end : pos; e_new : text }.
 
-Definition pos_eqb (p q : pos) : bool := Nat.eqb (fst p) (fst q) && Nat.eqb (snd p) (snd q).
-Definition plt (p q : pos) : Prop := fst p < fst q \/ (fst p = fst q /\ snd p < snd q).
-Definition ple (p q : pos) : Prop := p = q \/ plt p q.
+Definition LF : N := 10%N.
+Definition CR : N := 13%N.
+Definition is_eol (c : N) : bool := N.eqb c LF || N.eqb c CR.
+(* UTF-16 code units of one Unicode scalar value *)
+Definition u16 (c : N) : nat := if N.ltb c 65536 then 1 else 2.
 
-(* drop characters of old, starting at position p, until position q is reached *)
-Fixpoint skip_to (p : pos) (old : text) (q : pos) : option text :=
-  if pos_eqb p q then Some old else
-  match old with [] => None | c :: old' => skip_to (adv16 p c) old' q end.
-
-(* relational form: walk the old text; an edit fires exactly when the current position is its start *)
-Inductive applies : pos -> text -> list edit -> text -> Prop :=
-| A_nil p old : applies p old [] old
-| A_edit p old e es old' out : p = e_start e -> skip_to p old (e_end e) = Some old' ->
-    applies (e_end e) old' es out -> applies p old (e :: es) (e_new e ++ out)
-| A_char p c old e es out : p <> e_start e -> applies (adv16 p c) old (e :: es) out ->
-    applies p (c :: old) (e :: es) (c :: out).
-
-(* executable form (the oracle evaluated on the implementation's edits) *)
-Fixpoint apply_pos (fuel : nat) (p : pos) (old : text) (es : list edit) : option text :=
-  match fuel with
-  | O => None
-  | S f =>
-      match es with
-      | [] => Some old
-      | e :: es' =>
-          if pos_eqb p (e_start e) then
-            match skip_to p old (e_end e) with
-            | Some old' => option_map (app (e_new e)) (apply_pos f (e_end e) old' es')
-            | None => None
-            end
-          else match old with
-               | [] => None
-               | c :: old' => option_map (cons c) (apply_pos f (adv16 p c) old' es)
-               end
+(* offset (in scalars) of character `c` within the line that starts at the head of `doc` *)
+Fixpoint col_offset (doc : text) (c : nat) : option nat :=
+  match c with
+  | O => Some 0
+  | S _ =>
+      match doc with
+      | [] => None                                       (* beyond the end of the last line *)
+      | x :: r =>
+          if is_eol x then None                          (* beyond the end of the line *)
+          else if c <? u16 x then None                   (* inside a surrogate pair *)
+          else option_map S (col_offset r (c - u16 x))
       end
   end.
-Definition apply_edits (old : text) (es : list edit) : option text :=
-  apply_pos (S (length old + length es)) (0, 0) old es.
 
-(* in range, ordered, non-overlapping *)
-Fixpoint ordered (p : pos) (es : list edit) : Prop :=
-  match es with
-  | [] => True
-  | e :: r => ple p (e_start e) /\ ple (e_start e) (e_end e) /\ ordered (e_end e) r
+(* offset (in scalars) of position (l, c) in `doc`; None = the position does not exist in this document *)
+Fixpoint offset_of (doc : text) (l c : nat) {struct doc} : option nat :=
+  match l with
+  | O => col_offset doc c
+  | S l' =>
+      match doc with
+      | [] => None                                       (* no such line *)
+      | x :: r =>
+          if N.eqb x CR then
+            match r with
+            | y :: r' => if N.eqb y LF then option_map (fun n => S (S n)) (offset_of r' l' c)
+                         else option_map S (offset_of r l' c)
+            | [] => option_map S (offset_of r l' c)
+            end
+          else if N.eqb x LF then option_map S (offset_of r l' c)
+          else option_map S (offset_of r l c)
+      end
   end.
-Definition in_range (old : text) (es : list edit) : Prop :=
-  Forall (fun e => ple (e_end e) (adv width_utf16 (0, 0) old)) es.
+
+(* an edit with both ends resolved to offsets *)
+Definition resolved := (nat * nat * text)%type.
+Definition resolve (doc : text) (e : edit) : option resolved :=
+  match offset_of doc (fst (e_start e)) (snd (e_start e)), offset_of doc (fst (e_end e)) (snd (e_end e)) with
+  | Some s, Some t => Some (s, t, e_new e)
+  | _, _ => None
+  end.
+Fixpoint resolve_all (doc : text) (es : list edit) : option (list resolved) :=
+  match es with
+  | [] => Some []
+  | e :: r => match resolve doc e, resolve_all doc r with Some x, Some xs => Some (x :: xs) | _, _ => None end
+  end.
+
+(* the document from offset `cur` on, with the (ordered, non-overlapping) replacements carried out *)
+Fixpoint splice (doc : text) (cur : nat) (rs : list resolved) : option text :=
+  match rs with
+  | [] => Some (skipn cur doc)
+  | (s, t, new) :: r =>
+      if (cur <=? s) && (s <=? t) && (t <=? length doc)
+      then option_map (fun out => firstn (s - cur) (skipn cur doc) ++ new ++ out) (splice doc t r)
+      else None
+  end.
+
+(* None: some position is not in range, or the edits are not ordered / overlap *)
+Definition apply_edits (doc : text) (es : list edit) : option text :=
+  match resolve_all doc es with Some rs => splice doc 0 rs | None => None end.
+
+(* the same conditions as predicates *)
+Definition in_range (doc : text) (es : list edit) : Prop :=
+  Forall (fun e => exists s t, offset_of doc (fst (e_start e)) (snd (e_start e)) = Some s /\
+                               offset_of doc (fst (e_end e)) (snd (e_end e)) = Some t /\ s <= t <= length doc) es.
+Fixpoint ordered_from (cur : nat) (rs : list resolved) : Prop :=
+  match rs with
+  | [] => True
+  | (s, t, _) :: r => cur <= s /\ s <= t /\ ordered_from t r
+  end.
+Definition ordered_disjoint (doc : text) (es : list edit) : Prop :=
+  exists rs, resolve_all doc es = Some rs /\ ordered_from 0 rs.
+
+(* positions compare lexicographically *)
+Definition pos_le (p q : pos) : Prop := fst p < fst q \/ (fst p = fst q /\ snd p <= snd q).
+
+(* document class used to guard theorems: the document contains a CR (as part of CR LF or alone) *)
+Definition has_cr (doc : text) : bool := existsb (N.eqb CR) doc.
